@@ -25,16 +25,27 @@ class Ctx:
         dict / set attribute initialised in __init__ is declared (a new table must get a kind and enter the pairing rules)."""
         from . import tables as T
 
+        self.table_notes = []  # (class, kind, attributes): surfaced as `unknown` obligations by the container properties
         for cls in T.CONTAINERS:
             ci = self.prog.cls(cls)
-            init = ci.init_attrs()
+            init = dict(ci.init_attrs())
+            # attributes initialised by helpers that __init__ calls (or anywhere else in the class) count as well
+            assigned = set(init)
+            for m in ci.methods.values():
+                for n in ast.walk(m.node):
+                    if isinstance(n, ast.Attribute) and isinstance(n.ctx, ast.Store) and isinstance(n.value, ast.Name) and n.value.id == "self":
+                        assigned.add(n.attr)
+                    if isinstance(n, ast.Call) and isinstance(n.func, ast.Name) and n.func.id == "setattr" and len(n.args) >= 2 and isinstance(n.args[1], ast.Constant):
+                        assigned.add(n.args[1].value)
             decl = T.class_tables(cls)
-            missing = [a for a in decl if a not in init]
+            missing = [a for a in decl if a not in assigned]
+            if len(missing) == len(decl):
+                raise AnalysisError(f"{cls}: none of the declared tables {sorted(decl)} is assigned anywhere in the class (tables.py does not describe this tree)")
             if missing:
-                raise AnalysisError(f"{cls}: declared tables {missing} are not initialised in __init__ (tables.py is out of date)")
+                self.table_notes.append((cls, "declared-but-not-assigned", missing))
             extra = [a for a, v in init.items() if a not in decl and (isinstance(v, (ast.Dict, ast.Set)) or (isinstance(v, ast.Call) and isinstance(v.func, ast.Name) and v.func.id in ("dict", "set", "list", "defaultdict")))]
             if extra:
-                raise AnalysisError(f"{cls}: __init__ creates undeclared tables {extra}: give them a kind in hgxverif/tables.py so that the pairing rules cover them")
+                self.table_notes.append((cls, "undeclared-table", extra))
 
     def view(self, dotted_or_fi) -> FuncView:
         fi = dotted_or_fi if isinstance(dotted_or_fi, FunctionInfo) else self.prog.func(dotted_or_fi)
